@@ -420,6 +420,21 @@ class Ref:
             c.inds = [self.share(e) for e in L.inds]
             c.elems = [fresh(iota(fill, ne), esz(dt))]
             self.slots[s] = c
+        elif op == "lmove":
+            d, src = a
+            if not (0 <= d < NLAY and 0 <= src < NLAY) or self.lays[src] is None:
+                raise Invalid("lmove")
+            Ls, Ld = self.lays[src], self.lays[d]
+            if d == src:
+                return                      # self-move: nothing happens
+            if Ld is not None and (Ld.lk != Ls.lk or Ld.it != Ls.it):
+                raise Invalid("lmove types")
+            # move construction (free slot) / move assignment: the target now holds the source's arrays (what it held
+            # before is dropped), the source holds nothing; no array gains or loses a holder on the way
+            self.lays[d] = Lay(Ls.lk, Ls.it, Ls.inds, Ls.sidx)
+            self.lays[src] = Lay(Ls.lk, Ls.it, [], [])
+        elif op == "lvec":
+            pass                            # round trip through std::vector / a by-value member: nothing changes
         elif op == "ldrop":
             l = a[0]
             if not (0 <= l < NLAY) or self.lays[l] is None:
@@ -468,7 +483,7 @@ class Ref:
         return out
 
 
-OP_ARITY = {"copy": 3, "mk": 6, "new": 6, "mat": 9, "band": 6, "adopt": 2, "range": 4, "clone": 4, "conv": 4, "xconv": 2, "move": 2,
+OP_ARITY = {"lmove": 2, "lvec": 1, "copy": 3, "mk": 6, "new": 6, "mat": 9, "band": 6, "adopt": 2, "range": 4, "clone": 4, "conv": 4, "xconv": 2, "move": 2,
             "clear": 1, "destroy": 1, "format": 2, "write": 5, "lay": 2, "mlay": 5, "ldrop": 1, "end": 0}
 
 
@@ -692,6 +707,10 @@ def propose(rng, ref, selfbias=0.0):
         if dead:
             return ["mlay", S(rng.choice(dead)), S(l), S(rng.choice(kinds)), S(rng.randrange(2)), S(rng.randrange(200, 290))]
         return None
+    if r < 0.755 and lal:
+        return ["lmove", S(rng.randrange(NLAY)), S(rng.choice(lal))]
+    if r < 0.76 and lal:
+        return ["lvec", S(rng.randrange(2))]
     if r < 0.77 and lal:
         return ["ldrop", S(rng.choice(lal))]
     if r < 0.84:
@@ -797,6 +816,10 @@ CORPUS = [
     "mk 0 7 0 0 2 10 mk 1 7 0 0 1 5 clear 1 conv 1 0 0 0 destroy 0 destroy 1 end",
     "mk 0 8 0 0 2 10 mk 1 8 0 0 1 5 move 2 1 conv 1 0 0 0 destroy 1 destroy 0 destroy 2 end",
     "mk 0 7 1 1 2 10 mk 1 7 0 0 1 5 clear 1 conv 1 0 0 0 destroy 1 destroy 0 end",
+    # SparseLayout special members: move construction, move assignment, self-move, std::vector / member round trips
+    "mat 0 2 0 0 2 3 2 10 0 lay 0 0 lmove 1 0 lvec 0 lvec 1 mlay 1 1 2 0 5 lmove 0 1 lmove 0 0 lay 1 0 lmove 0 1 lvec 0 ldrop 0 ldrop 1 destroy 0 destroy 1 end",
+    "band 0 1 1 3 2 4 lay 2 0 lay 3 0 lmove 3 2 lvec 1 mlay 1 3 4 1 7 ldrop 3 ldrop 2 destroy 0 destroy 1 end",
+    "mat 0 2 0 0 2 3 2 10 0 lay 0 0 lmove 1 0 ldrop 0 ldrop 1 write 0 1 0 0 1 destroy 0 end",
     # cross-type clone (all modes) into a live container
     "mat 0 2 0 0 2 2 1 3 1 mat 1 2 1 1 1 1 1 7 0 clone 1 0 0 5 clone 1 0 2 5 clone 1 0 1 5 clone 1 0 4 5 destroy 0 destroy 1 end",
 ]
@@ -881,6 +904,26 @@ def small_alphabet(ref):
     return ops
 
 
+def layout_alphabet(ref):
+    """second exhaustive alphabet: 1 matrix (slot 0, plus a second one made from a layout in slot 1), 2 layout slots,
+    every special member of SparseLayout: take, move construction / assignment / self-move, std::vector and by-value
+    member round trips, matrix construction / assignment from a layout, drop, destruction of the matrices"""
+    S = str
+    ops = []
+    if ref.slots[0] is None and ref.slots[1] is None and all(L is None for L in ref.lays):
+        return [["mat", "0", "2", "0", "0", "2", "3", "2", "10", "0"]]
+    for a in (0, 1):
+        if ref.slots[a] is not None:
+            ops += [["lay", "0", S(a)], ["lay", "1", S(a)], ["destroy", S(a)], ["clear", S(a)]]
+    for l in (0, 1):
+        if ref.lays[l] is not None:
+            ops += [["lmove", "0", S(l)], ["lmove", "1", S(l)], ["ldrop", S(l)],
+                    ["mlay", "0", S(l), "2", "0", "90"], ["mlay", "1", S(l), "2", "1", "95"]]
+    if any(L is not None for L in ref.lays[:2]):
+        ops += [["lvec", "0"], ["lvec", "1"]]
+    return ops
+
+
 def teardown(ref):
     ops = []
     views = [s for s in range(NSLOT) if ref.slots[s] is not None and ref.slots[s].foreign]
@@ -890,7 +933,7 @@ def teardown(ref):
     return ops + [["end"]]
 
 
-def exhaustive_histories(maxlen):
+def exhaustive_histories(maxlen, alphabet=None):
     """ALL op sequences of length <= maxlen over the small alphabet (followed by the teardown); sequences whose last
     op is a documented abort end there; sequences that would use a dangling view are outside the property's guard"""
     out = []
@@ -900,7 +943,7 @@ def exhaustive_histories(maxlen):
             out.append(" ".join(" ".join(t) for t in prefix + teardown(ref)))
         if len(prefix) == maxlen:
             return
-        for t in small_alphabet(ref):
+        for t in (alphabet or small_alphabet)(ref):
             trial = copy.deepcopy(ref)
             try:
                 trial.apply(t)
@@ -1114,7 +1157,7 @@ def main(argv):
     abort_cases = ["mk 0 7 0 0 2 10 conv 0 0 0 0", "mk 0 8 1 0 1 10 clone 1 0 0 0 conv 1 1 0 0"] + \
         [gen_abort_case(rng) for _ in range(200 if quick else 2000)]
     asan_cases = cases[:len(CORPUS) + len(cross) + (500 if quick else 6000)] + null_cases[:100 if quick else 1000] + abort_cases[:60 if quick else 600]
-    exh = exhaustive_histories(4)
+    exh = exhaustive_histories(4) + exhaustive_histories(5, layout_alphabet)
     exh_describe = lambda c: ["exh-len:%d" % sum(1 for t in (split_ops(c) or []) if t[0] != "end")]
     streams = [
         vlib.Stream("lifetimes", cases, [binary], drv, oracle=oracle, canon=canon, nontrivial=nontrivial,
@@ -1141,7 +1184,9 @@ def main(argv):
             "TupleVector<DenseVector, DenseVector> objects (each tuple op = its two component ops); plus EVERY op sequence of length <= 4 "
             "over 3 containers + 1 layout from a finite alphabet (new DV/CSR, clone 5 modes, convert same/other type, "
             "move, clear, destroy, format, range, adopt, dense<->blocked, layout take/make/drop, incl. self and aborting "
-            "ops); full pool+container state compared after every "
+            "ops) and every sequence of length <= 4 after the creation of 1 matrix over 2 layout slots with all special "
+            "members of SparseLayout (take, move construction/assignment/self-move, std::vector and by-value-member round "
+            "trips, matrix from layout, drop); full pool+container state compared after every "
             "op; non-trivial = an array with >= 2 owners loses an owner that is not the youngest live container")
     rc = vlib.run_pipeline(PROP, args.tier, args.seed, lean, streams, t0, assumptions=[
         "chunk identity up to renaming by first appearance (malloc addresses are not modelled)",
